@@ -5,24 +5,54 @@
 package request
 
 // ---- authentication ghost state -------------------------------------------------------
-// validsig(sig, method, id, nonce): the signature verifies for (method, id, nonce, args) under the
-// key named by id. The auth* variables record the arguments of the most recent successful
-// request.Verify call of the current request: they are *defined* by Verify's contract.
+// The auth* variables record the arguments of the most recent successful request.Verify call of the
+// current request: they are *defined* by Verify's contract. nonceOK/nonceID/nonceVal: the most recent
+// nonce accepted by the nonce store for the current request.
 //
 //@ ghost var authOK bool
 //@ ghost var authMethod string
 //@ ghost var authID string
 //@ ghost var authNonce int
 //@ ghost var authArgs []interface{}
-// nonceOK/nonceID/nonceVal: the most recent nonce accepted by the nonce store for the current request
 //@ ghost var nonceOK bool
 //@ ghost var nonceID string
 //@ ghost var nonceVal int
 
+// signedPayload(P, pubkey, nonce, args): P is exactly [pubkey, nonce, args...]
+//@ pure signedPayload(P []interface{}, pubkey string, nonce int64, args []interface{}) bool = len(P) == 2 + len(args)
+//@      && elems(P)[off(P)] == box(pubkey) && elems(P)[off(P) + 1] == box(nonce)
+//@      && (forall k int :: off(P) + 2 <= k && k < off(P) + len(P) ==> elems(P)[k] == elems(args)[k - off(P) - 2 + off(args)])
+
+//@ func assemble
+//@ property C04 C15
+//@ safety on
+//@ callreq json.Marshal [signs-identity-nonce-and-all-parameters] : typeis(arg0, []interface{}) && signedPayload(arg0.([]interface{}), pubkey, nonce, args)
+//@ ensures [errkind] plainError(err)
+//@ ensures [method-then-payload] err == nil ==> len(result) == len(method) + len(lastJSON)
+//@      && (forall k int :: off(result) <= k && k < off(result) + len(method) ==> elems(result)[k] == strbytes(method)[k - off(result)])
+//@      && (forall k int :: off(result) + len(method) <= k && k < off(result) + len(result) ==> elems(result)[k] == elems(lastJSON)[k - off(result) - len(method) + off(lastJSON)])
+//@ modifies lastJSON
+
 //@ func Verify
-//@ property C04
-//@ trusted the body (dispatch to NodeRequest.Verify / AddressRequest.Verify and the crypto below them) is not yet under contract
+//@ property C04 C15
+//@ safety on
 //@ defines [auth-ok]   err == nil ==> authOK && authMethod == method && authID == pubkey && authNonce == nonce && authArgs == args
 //@ defines [auth-fail] err != nil ==> authOK == old(authOK) && authMethod == old(authMethod) && authID == old(authID) && authNonce == old(authNonce) && authArgs == old(authArgs)
 //@ ensures [errkind]   !typeis(err, pool.VerifyFailedError) && !typeis(err, balance.LowBalanceError)
-//@ modifies authOK, authMethod, authID, authNonce, authArgs
+//@ callreq assemble [verifies-exactly-what-was-named] : arg0 == method && arg1 == pubkey && arg2 == nonce && arg3 == args
+//@ modifies authOK, authMethod, authID, authNonce, authArgs, lastJSON, lastAddr
+
+//@ func (NodeRequest).Verify
+//@ property C04 C15
+//@ safety on
+//@ ensures [errkind] !typeis(err, pool.VerifyFailedError) && !typeis(err, balance.LowBalanceError)
+//@ callreq assemble [hashes-its-own-fields] : arg0 == r.Method && arg1 == r.NodeID && arg2 == r.Nonce && arg3 == r.ExtraArgs
+//@ modifies lastJSON
+
+//@ func (AddressRequest).Verify
+//@ property C04 C06 C15
+//@ safety on
+//@ ensures [errkind] !typeis(err, pool.VerifyFailedError) && !typeis(err, balance.LowBalanceError)
+//@ ensures [signer-is-the-named-wallet] err == nil ==> lower(lastAddr) == lower(r.Address)
+//@ callreq assemble [hashes-its-own-fields] : arg0 == r.Method && arg1 == r.Address && arg2 == r.Nonce && arg3 == r.ExtraArgs
+//@ modifies lastJSON, lastAddr
